@@ -21,9 +21,18 @@
                 ghost = 0 last successful command was not stop/run_for | 1 it was
      events   = (0 speed applied mode)  one per completed _apply_speed/stop/coast
               | (1 q)                   one per call of the package-level sleep
+
+   CASE    (2 x)                      DCMotor._clamp_speed on a float x that may be an IEEE special
+   OUTPUT  the xfloat result          xfloat = (0 (num den)) finite | (1) NaN | (2) +inf | (3) -inf
+
+   CASE    (3 ctor_args (op1 ...) (k a b))   run the ops, then ONE call with a possibly special duration:
+             k = 0: run_for(duration = xfloat a, speed = pynum b)
+             k = 1: ramp(target = pynum a, duration = xfloat b)
+   OUTPUT  (snapshot events res)      of that last call; res = (0) returned | (1 kind),
+                                      kind = 0 ValueError | 1 TypeError | 2 OverflowError
    An undecodable case answers (2). *)
 From Coq Require Import ZArith QArith List Bool.
-From RV Require Import Base.Wire Base.NumM Host.DCMotor.
+From RV Require Import Base.Wire Base.NumM Base.XFloat Host.DCMotor Host.ActuatorsX.
 Import ListNotations.
 Open Scope Z_scope.
 
@@ -108,8 +117,59 @@ Definition run_motor (args : wv) (ops : list wv) : wv :=
   | _ => wbad
   end.
 
+(* ---------------- calls with IEEE specials (Host/ActuatorsX.v) ---------------- *)
+Fixpoint motor_after (m : motor) (ops : list wv) : option motor :=
+  match ops with
+  | [] => Some m
+  | o :: r => match un_mop o with
+              | None => None
+              | Some op => motor_after (mstate (mstep m op)) r
+              end
+  end.
+
+Definition wxres (r : xresult) : wv :=
+  match r with
+  | XOk => WL [WI 0]
+  | XRaised k => WL [WI 1; WI (match k with XValueError => 0 | XTypeError => 1 | XOverflowError => 2 end)]
+  end.
+
+Definition run_x (args : wv) (ops : list wv) (last : wv) : wv :=
+  match args with
+  | WL [a; b; c] =>
+      match un_pynum a, un_pynum b, un_pynum c with
+      | Some a', Some b', Some c' =>
+          match motor_ctor a' b' c' with
+          | inr _ => wbad
+          | inl m0 =>
+              match motor_after m0 ops with
+              | None => wbad
+              | Some m =>
+                  let out (r : motor * list mev * xresult) :=
+                    let '(m', evs, res) := r in WL [wmotor m'; WL (map wmev evs); wxres res] in
+                  match last with
+                  | WL [WI 0; d; v] =>
+                      match un_xfloat d, un_pynum v with
+                      | Some d', Some v' => out (run_for_x m d' v')
+                      | _, _ => wbad
+                      end
+                  | WL [WI 1; t; d] =>
+                      match un_pynum t, un_xfloat d with
+                      | Some t', Some d' => out (ramp_x m t' d')
+                      | _, _ => wbad
+                      end
+                  | _ => wbad
+                  end
+              end
+          end
+      | _, _, _ => wbad
+      end
+  | _ => wbad
+  end.
+
 Definition run (v : wv) : wv :=
   match v with
   | WL [WI 1; args; WL ops] => run_motor args ops
+  | WL [WI 2; x] => match un_xfloat x with Some x' => wxfloat (xclamp x') | None => wbad end
+  | WL [WI 3; args; WL ops; last] => run_x args ops last
   | _ => wbad
   end.
